@@ -5,6 +5,7 @@ import (
 	"fmt"
 	"time"
 
+	"github.com/notaryproject/notation-core-go/revocation"
 	"github.com/notaryproject/notation-core-go/signature"
 	"github.com/notaryproject/notation-go"
 	"github.com/notaryproject/notation-go/plugin"
@@ -85,6 +86,10 @@ type vcfg struct {
 	// (registry.example/warm<k>) / named warm<k> in the blob document, with the main statement's stores and
 	// identities and their own level: the same long-lived verifier serves them too (verifySibling)
 	siblings []vSibling
+	// realValidator / realLegacy: a validator that is not the scripted one (C05 configuration B); with neither
+	// these nor validator set, the options carry no validator at all and the library builds its own
+	realValidator revocation.Validator
+	realLegacy    revocation.Revocation
 }
 
 type vSibling struct {
@@ -132,6 +137,12 @@ func buildVerifier(c vcfg) (fullVerifier, error) {
 		} else {
 			opts.RevocationCodeSigningValidator = c.validator
 		}
+	}
+	if c.realValidator != nil {
+		opts.RevocationCodeSigningValidator = c.realValidator
+	}
+	if c.realLegacy != nil {
+		opts.RevocationClient = c.realLegacy
 	}
 	if c.tsValidator != nil {
 		opts.RevocationTimestampingValidator = c.tsValidator
